@@ -364,13 +364,16 @@ func (repo *BlockRepository) Revert(ctx context.Context, height int) error {
 		return errors.Wrap(err, "Failed to save before revert")
 	}
 
-	// Revert heights map
+	// Collect the hashes to take out of the heights map. The map, the cache and the height are only
+	// changed after every storage operation has succeeded, so a failed revert leaves them as they
+	// were.
+	removeHashes := make([]bitcoin.Hash32, 0, repo.height-height)
 	for removeHeight := repo.height; removeHeight > height; removeHeight-- {
 		hash, err := repo.getHash(ctx, removeHeight)
 		if err != nil {
 			return errors.Wrap(err, "Failed to revert block heights map")
 		}
-		delete(repo.heights, *hash)
+		removeHashes = append(removeHashes, *hash)
 	}
 
 	// Height of last block of latest full file
@@ -403,7 +406,7 @@ func (repo *BlockRepository) Revert(ctx context.Context, height int) error {
 	}
 
 	// Cache needs to be reset with last file's state.
-	repo.lastHeaders = make([]wire.BlockHeader, 0, blocksPerKey)
+	lastHeaders := make([]wire.BlockHeader, 0, blocksPerKey)
 	buf := bytes.NewBuffer(data)
 	header := wire.BlockHeader{}
 	for buf.Len() > 0 {
@@ -411,7 +414,11 @@ func (repo *BlockRepository) Revert(ctx context.Context, height int) error {
 		if err != nil {
 			return errors.Wrap(err, fmt.Sprintf("Failed to parse latest block data during truncate : %s", path))
 		}
-		repo.lastHeaders = append(repo.lastHeaders, header)
+		lastHeaders = append(lastHeaders, header)
+	}
+	repo.lastHeaders = lastHeaders
+	for _, hash := range removeHashes {
+		delete(repo.heights, hash)
 	}
 	repo.height = height
 	return nil
